@@ -181,7 +181,7 @@ PROPS = {
     "C07": dict(
         kani=["c07_transform_frame", "c07_are_on_same_mount_is_pure", "c07_dedupe_script_is_pure_bounded"],
         verus=[],
-        prefixes=["C07."],
+        prefixes=["C07.", "C01.transform_tmp."],
         category="proof",
         trust=["A1 verifiers: Kani 0.68 / CBMC 6.11, rustc",
                "std::fs::{copy, remove_file, remove_dir_all} are stubs recording their path arguments (each may fail)",
@@ -205,7 +205,7 @@ PROPS = {
     "C15": dict(
         kani=["c15_hash_file_ok", "c15_hash_file_notfound", "c15_hash_file_denied", "c15_hash_file_other",
               "c15_hash_transformed_ok", "c15_hash_transformed_notfound", "c15_hash_transformed_denied", "c15_hash_transformed_other"],
-        verus=["scan_loop"],
+        verus=["scan_loop", "stage_chunks"],
         prefixes=["C15."],
         category="proof",
         trust=["A1 verifiers", "FileHasher::hash_file / hash_transformed are replaced by stubs returning Ok / Err(NotFound) / Err(PermissionDenied) / Err(Other): "
@@ -240,7 +240,7 @@ PROPS = {
         design_ref="DESIGN.md §5 C19",
     ),
     "C01": dict(
-        kani=[],
+        kani=["c07_transform_frame"],
         verus=["stage_chunks", "scan_loop", "hash_transformed_tail"],
         prefixes=["C01.", "C12.hash_transformed."],
         category="proof",
